@@ -129,7 +129,7 @@ fn exh(ctx: &mut Ctx, sub: &str, start: u64, count: u64) {
 
 fn worker(ctx: &mut Ctx) {
     let (maxlen, cases) = match ctx.cfg.tier {
-        Tier::Quick => (3u32, 20_000u64),
+        Tier::Quick => (3u32, 60_000u64),
         Tier::Thorough => (4u32, 500_000u64),
     };
     // exhaustive part
